@@ -69,6 +69,7 @@ class Policy:
         self.deviations = dict(deviations)
         self.draws = []  # (key, number of alternatives, chosen index)
         self.context = lambda kind: ("?", kind)
+        self.on_answer = None
         self.hit = set()
 
     def __call__(self, kind, args, index):
@@ -86,6 +87,8 @@ class Policy:
         else:
             choice = base
         self.draws.append((key, len(alts), choice))
+        if self.on_answer is not None:
+            self.on_answer(alts[choice])
         return alts[choice]
 
     def assert_all_hit(self):
@@ -211,9 +214,12 @@ class Execution:
             install_bound_probe()
             del BOUND_RECORDS[:]
         self.ctx = None
+        self.handler_draws = {}
+        self._pending_answer = None
         self._snap = None
         self.ordinals = collections.Counter()
         policy.context = self.draw_context
+        policy.on_answer = self._record_answer
         self._install()
 
     # -----------------------------------------------------------------------------------------------------------------
@@ -230,7 +236,15 @@ class Execution:
             tg = self.tagger_of.get(h)
             base = (self.legs, phase, getattr(tg, "tag", type(h).__name__), None if p is None else p[1])
         self.ordinals[base] += 1
+        if self.ctx is not None:
+            self.handler_draws.setdefault(self.ctx[1], []).append([self.ctx[0], kind, None])
+            self._pending_answer = self.handler_draws[self.ctx[1]][-1]
         return base + (kind, self.ordinals[base] - 1)
+
+    def _record_answer(self, answer):
+        if self._pending_answer is not None:
+            self._pending_answer[2] = answer
+            self._pending_answer = None
 
     def _wrap_handler(self, h):
         ex = self
@@ -240,6 +254,8 @@ class Execution:
             def call(*a, _real=real, _phase=phase, **k):
                 prev = ex.ctx
                 ex.ctx = (_phase, h)
+                if _phase == "time":
+                    ex.handler_draws[h] = []
                 try:
                     return _real(*a, **k)
                 finally:
@@ -290,6 +306,8 @@ class Execution:
         real_push = sch.push_event
 
         def push(time, handler):
+            if "C01" in ex.mon:
+                ex.check_c01_candidate(handler)
             ex.candidate[handler] = (time.quotient, time.remainder)
             if handler in ex.pending:
                 ex.pending[handler][3] = (time.quotient, time.remainder)
@@ -416,6 +434,8 @@ class Execution:
             self.check_c12(after, h, t)
         if "C11" in self.mon:
             self.check_c11_commit(after, h, t)
+        if "C01" in self.mon:
+            self.check_c01_commit(before, after, h, t)
         if t is not None:
             self.last_time = t
         self.after_prev = after
@@ -702,6 +722,103 @@ class Execution:
             if any(abs(b) > 1e-9 * max(1.0, L[d]) for d, b in enumerate(bary)):
                 self.V("C12:barycentre", "composite object %d: stored position advanced to the event time is off the "
                        "barycentre of its point masses by %r after %s" % (r, bary, name))
+
+    # ---- C01 (run level) --------------------------------------------------------------------------------------------
+    def check_c01_candidate(self, h):
+        """Every candidate of an interaction handler that needs an energy budget drew at least one fresh one."""
+        tg = self.tagger_of.get(h)
+        if tg is None or tagger_kind(tg) != "interaction":
+            return
+        needs = False
+        for attr in ("_bounding_potential", "_potential"):
+            p = getattr(h, attr, None)
+            if p is not None and getattr(p, "potential_change_required", False):
+                needs = True
+        if hasattr(h, "_estimator") or hasattr(h, "_max_displacement"):
+            needs = True
+        if not needs:
+            return
+        draws = [d for d in self.handler_draws.get(h, []) if d[0] == "time" and d[1] == "expovariate"]
+        self.stats["c01_candidates"] += 1
+        if not draws:
+            self.V("C01:no-fresh-budget", "%s (tagger %s) produced a candidate time without drawing an energy budget"
+                   % (type(h).__name__, tg.tag))
+
+    def _hard_core_parameters(self):
+        if hasattr(self, "_hc"):
+            return self._hc
+        diam2 = None
+        bond = None
+        for h in self.act.get_event_handlers():
+            p = getattr(h, "_potential", None)
+            if p is None:
+                continue
+            if type(p).__name__ == "HardSpherePotential":
+                diam2 = p._diameter_squared
+            if type(p).__name__ == "HardDipolePotential":
+                bond = (p._minimum_separation_squared, p._maximum_separation_squared)
+        self._hc = (diam2, bond)
+        return self._hc
+
+    def check_c01_commit(self, before, after, h, t):
+        name = type(h).__name__
+        dim, L = self.dim, self.L
+        # end of chain: the unit named by the draw(s) moves afterwards, direction cycles / rotates, speed kept
+        if "EndOfChain" in name:
+            ints = [d[2] for d in self.handler_draws.get(h, []) if d[0] == "time" and d[1] == "randint"]
+            moving = sorted(i for i, (p, v, ts, c) in after.items() if len(i) == self.nlev and v is not None)
+            old = [v for i, (p, v, ts, c) in before.items() if len(i) == self.nlev and v is not None]
+            new = [v for i, (p, v, ts, c) in after.items() if len(i) == self.nlev and v is not None]
+            self.stats["c01_end_of_chain"] += 1
+            if ints and moving:
+                if len(ints) == 1:
+                    want = [(ints[0],)] if self.nlev == 1 else [(ints[0], k) for k in range(self.npr)]
+                else:
+                    want = [tuple(ints[:2])]
+                if moving != sorted(want):
+                    self.V("C01:end-of-chain-unit", "end of chain drew unit %r but afterwards %r move(s)"
+                           % (ints, moving))
+            if old and new:
+                so = math.sqrt(sum(x * x for x in old[0]))
+                sn = math.sqrt(sum(x * x for x in new[0]))
+                if abs(so - sn) > 1e-9 * so:
+                    self.V("C01:end-of-chain-speed", "end of chain changed the speed from %r to %r" % (so, sn))
+                if "PeriodicDirection" in name:
+                    do = [i for i, x in enumerate(old[0]) if x != 0.0]
+                    dn = [i for i, x in enumerate(new[0]) if x != 0.0]
+                    if len(do) == 1 and (len(dn) != 1 or dn[0] != (do[0] + 1) % dim):
+                        self.V("C01:end-of-chain-direction", "end of chain: direction of motion %r -> %r, expected the "
+                               "next axis" % (do, dn))
+        # hard cores
+        diam2, bond = self._hard_core_parameters()
+        if (diam2 is None and bond is None) or t is None:
+            return
+        pos = {}
+        for i, (p, v, ts, c) in after.items():
+            if len(i) != self.nlev:
+                continue
+            if v is not None and ts is not None:
+                dt = tdiff(t, ts)
+                p = tuple(p[d] + v[d] * dt for d in range(dim))
+            pos[i] = p
+        ids = sorted(pos)
+        self.stats["c01_hard_core_states"] += 1
+        for a in range(len(ids)):
+            for b in range(a + 1, len(ids)):
+                i, j = ids[a], ids[b]
+                d2 = 0.0
+                for d in range(dim):
+                    s = ((pos[j][d] - pos[i][d]) + L[d] / 2) % L[d] - L[d] / 2
+                    d2 += s * s
+                if i[0] != j[0] or self.nlev == 1:
+                    if diam2 is not None and d2 < diam2 * (1 - 1e-9):
+                        self.V("C01:hard-core-overlap", "after %s units %r and %r are at distance %r < diameter %r"
+                               % (name, i, j, math.sqrt(d2), math.sqrt(diam2)))
+                        return
+                elif bond is not None and not (bond[0] * (1 - 1e-9) <= d2 <= bond[1] * (1 + 1e-9)):
+                    self.V("C01:bond-window", "after %s the bond %r-%r has length %r outside [%r, %r]"
+                           % (name, i, j, math.sqrt(d2), math.sqrt(bond[0]), math.sqrt(bond[1])))
+                    return
 
     # ---- C04 --------------------------------------------------------------------------------------------------------
     def check_c04_end(self):
